@@ -680,8 +680,24 @@ pub fn kept_binding_cases(ctx: &Ctx, property: &str) -> Vec<(Case, bool)> {
     source_cases(ctx, property, "kept_binding", "binding kept past its turn / call", srcs)
 }
 
+// `f(xs..)` behaves as `f(xs[0], .., xs[n-1])` and `[xs.., ys..] == xs + ys`
+// for every kind of element - also for elements that remember where they came
+// from (bound methods, bound type functions): the spread, collected or
+// destructured element is the element. Oracle: the reference run.
+fn routed_element_cases(ctx: &Ctx) -> Vec<(Case, bool)> {
+    let pre = "o := {\"n\": \"héllo\", \"m\": fn () {\n    return this.n\n}, \"bump\": fn () {\n    this.n = this.n + \"!\"\n    return this.n\n}}\ns := \"wörld\"\nplain := fn () {\n    return \"plain\"\n}\n";
+    let mut srcs = vec![];
+    for b in ["o.m", "o[\"m\"]", "o.bump", "s->len", "s->type", "o->type", "plain"] {
+        for (route, body) in callable_routes(b) {
+            if route.starts_with("object") { continue; }
+            srcs.push((format!("{pre}{body}print(o.n)\n"), format!("`{b}` called after: {route}")));
+        }
+    }
+    source_cases(ctx, "C13", "routed_element", "element that remembers its origin, spread / collected / destructured before the call", srcs)
+}
+
 pub fn run(ctx: &Ctx) {
-    ctx.set_rule("every list pattern of width 0..3 (thorough: 4) over {name, _, nested [p, q], nested [h, ..t], nested {\"a\": x}} with and without a final ..rest, against lists of length 0..5 (two element families) and 4 non-list kinds; every object pattern of up to 3 entries from {shorthand, rename, rename to _, nested list pattern, computed key, nested object collect, absent key} with and without ..rest, against objects of size 0..5 and 3 non-object kinds; each in declaration, assignment, for-target and parameter position with all bound names printed, plus the round-trip law [p..] + rest == xs; every split of 0..5 argument values into plain and spread arguments (incl. empty spreads) against arity 0..4 with and without a rest parameter; a catalogue of inverse laws and of shape errors (duplicate names at any nesting, misplaced spread / collect); oracle: reference binding semantics, laws evaluated in Seed; spread beside a side effect on the spread list against the written-out form; random pattern trees (lists up to 40 wide, repeated object keys, depth 3) against fitting and one-off sources in a random binding position; sources of 17..100 elements; keys of a pattern that read a name bound by an earlier item of the same pattern (5 shapes x 3 records x 4 positions, with and without an outer variable of that name); what one turn or call bound (the pair of a `for`, pattern pieces, a collected rest, a rest parameter; 7 targets x 7 iterables and 5 parameter lists x 4 ways of keeping it: appended, spread into a new list, captured by a closure, held in an object) is unchanged by later turns / calls and by an in-place change of the value of another turn. Non-trivial = pattern with collect or nesting, or a call with spread arguments or a rest parameter; distinct = distinct source texts");
+    ctx.set_rule("every list pattern of width 0..3 (thorough: 4) over {name, _, nested [p, q], nested [h, ..t], nested {\"a\": x}} with and without a final ..rest, against lists of length 0..5 (two element families) and 4 non-list kinds; every object pattern of up to 3 entries from {shorthand, rename, rename to _, nested list pattern, computed key, nested object collect, absent key} with and without ..rest, against objects of size 0..5 and 3 non-object kinds; each in declaration, assignment, for-target and parameter position with all bound names printed, plus the round-trip law [p..] + rest == xs; every split of 0..5 argument values into plain and spread arguments (incl. empty spreads) against arity 0..4 with and without a rest parameter; a catalogue of inverse laws and of shape errors (duplicate names at any nesting, misplaced spread / collect); oracle: reference binding semantics, laws evaluated in Seed; spread beside a side effect on the spread list against the written-out form; random pattern trees (lists up to 40 wide, repeated object keys, depth 3) against fitting and one-off sources in a random binding position; sources of 17..100 elements; keys of a pattern that read a name bound by an earlier item of the same pattern (5 shapes x 3 records x 4 positions, with and without an outer variable of that name); what one turn or call bound (the pair of a `for`, pattern pieces, a collected rest, a rest parameter; 7 targets x 7 iterables and 5 parameter lists x 4 ways of keeping it: appended, spread into a new list, captured by a closure, held in an object) is unchanged by later turns / calls and by an in-place change of the value of another turn; bound methods and bound type functions as elements through 16 routes (spread into calls and literals, rest parameters, patterns, for, slices, range assignment) before they are called. Non-trivial = pattern with collect or nesting, or a call with spread arguments or a rest parameter; distinct = distinct source texts");
     ctx.replay_corpus(None);
     ctx.judge_all(law_cases(ctx), Via::Cli, None);
     let width = if ctx.tier == Tier::Quick { 3 } else { 4 };
@@ -691,6 +707,7 @@ pub fn run(ctx: &Ctx) {
     ctx.judge_all(cases, via, None);
     ctx.judge_all(dependent_key_cases(ctx), Via::Cli, None);
     ctx.judge_all(kept_binding_cases(ctx, "C13"), Via::Cli, None);
+    ctx.judge_all(routed_element_cases(ctx), Via::Cli, None);
     let cases = call_cases(ctx);
     ctx.set_extra("call_cases", serde_json::json!(cases.len()));
     ctx.judge_all(cases, Via::Cli, None);
